@@ -828,6 +828,38 @@ def m_option_filter(ev, st, args, depth, t):
                 yield ("ret", sb, _opt("None"))
 
 
+def m_option_zip(ev, st, args, depth, t):
+    for st2, n, pay in _as_variant(ev, st, args[0], OPT):
+        for st3, n2, pay2 in _as_variant(ev, st2, args[1], OPT):
+            if n == "Some" and n2 == "Some":
+                yield ("ret", st3, _opt("Some", ("agg", "tuple", "", "", (pay[0], pay2[0]))))
+            else:
+                yield ("ret", st3, _opt("None"))
+
+
+def m_option_and(ev, st, args, depth, t):
+    for st2, n, pay in _as_variant(ev, st, args[0], OPT):
+        yield ("ret", st2, args[1] if n == "Some" else _opt("None"))
+
+
+def m_option_or(ev, st, args, depth, t):
+    for st2, n, pay in _as_variant(ev, st, args[0], OPT):
+        yield ("ret", st2, _opt("Some", pay[0]) if n == "Some" else args[1])
+
+
+def m_bool_then_some(ev, st, args, depth, t):
+    v = strip(args[0])
+    if v[0] == "const":
+        yield ("ret", st, _opt("Some", args[1]) if v[1] else _opt("None"))
+        return
+    sa = st.copy()
+    if ev.add_cond(sa, v, "eq", 1, True):
+        yield ("ret", sa, _opt("Some", args[1]))
+    sb = st.copy()
+    if ev.add_cond(sb, v, "eq", 0, True):
+        yield ("ret", sb, _opt("None"))
+
+
 def m_option_unwrap_or(ev, st, args, depth, t):
     for st2, n, pay in _as_variant(ev, st, args[0], OPT):
         yield ("ret", st2, args[1] if n == "None" else pay[0])
@@ -1091,6 +1123,11 @@ MODELS = {
     "std::option::Option::<T>::and_then": m_option_and_then,
     "std::option::Option::<T>::unwrap_or": m_option_unwrap_or,
     "std::option::Option::<T>::filter": m_option_filter,
+    "std::option::Option::<T>::zip": m_option_zip,
+    "std::option::Option::<T>::and": m_option_and,
+    "std::option::Option::<T>::or": m_option_or,
+    "core::bool::<impl bool>::then_some": m_bool_then_some,
+    "std::bool::<impl bool>::then_some": m_bool_then_some,
     "std::option::Option::<T>::unwrap_or_else": m_option_unwrap_or_else,
     "std::option::Option::<T>::unwrap": m_option_unwrap,
     "std::option::Option::<T>::expect": m_option_unwrap,
